@@ -866,7 +866,9 @@ class HTTP1ServerConnection:
                     gen_log.error("Uncaught exception", exc_info=True)
                     conn.close()
                     return
-                if not ret:
+                if not ret or self.stream.closed():
+                    # Requests already buffered behind one that closed the
+                    # connection must not be processed.
                     return
                 await asyncio.sleep(0)
         finally:
